@@ -4,14 +4,18 @@ Correspondence (model = lean/IrVerif/Model/SymExpr.lean, driver commands sym.*):
   * expression trees built through the real `SymbolicDim` operator overloads
     (src/onnx_ir/_core.py 1484-1618; max/min through `SymbolicDim(text)`):
     real `evaluate` (complete and partial positive bindings) vs Lean `eval` / `subst` of the tree;
-  * the `.value` text of the built dimension, model-printed text (`pp`+`render`), grammar-directed
-    strings and a malformed stream through the real parser (`parse_symbolic_expression`) and the
-    Lean parser: accepted/raised, the parse tree (compared structurally through SymPy objects
-    built under `sympy.evaluate(False)`) and the values under bindings;
+    on the integer fragment additionally Lean `evalInt` (Int.fdiv / Int.fmod) vs Python's own ints;
+  * the `.value` text of the built dimension, model-printed text (`pp` + `render`), derivation trees
+    of the documented grammar (Lean `D.flatten` / `D.sem`), grammar-directed strings and a malformed
+    stream through the real parser (`parse_symbolic_expression`) and the Lean parser: accepted /
+    raised, the token stream, the parse tree (compared structurally through SymPy objects built
+    under `sympy.evaluate(False)`) and the values under bindings;
   * `simplify()`, `Shape.evaluate/simplify/free_symbols`.
 Oracle (independent of the Lean model): exact `fractions.Fraction` arithmetic over the tree, Python's
 own `ast` grammar for the meaning of a string, an Earley recogniser over the documented grammar
-for accept/reject.
+for accept/reject.  A wrong VALUE is attributed to SymPy (known finding, signature sympy-upstream:...)
+only when SymPy driven directly by the harness with the documented operations computes the same
+wrong value; otherwise it is a failure of the repo's code.
 """
 from __future__ import annotations
 
@@ -38,11 +42,15 @@ THEOREMS = [
 ]
 ASSUMPTIONS = [
     "SymPy (construction, automatic simplification, str, subs, simplify, floor/Mod/Max arithmetic) is external: "
-    "that it preserves evaluation is tested by the correspondence, not proved",
+    "that it preserves evaluation is tested by the correspondence, not proved; where SymPy alone returns a wrong value "
+    "(reproduced without repo code) the case is reported as known finding D162 instead of a violation",
     "bindings are positive integers (symbols are created with positive=True, integer=True)",
     "ASCII text only; int() digit limit (4300 digits) not modelled; sqrt(a, b) (SymPy reads b as evaluate=) not modelled",
     "values that are not finite rationals (division by zero, max()/min() of nothing, irrational powers) are "
     "outside the property: the model says 'no value' and the real result is only recorded",
+    "the parser model is the repaired grammar of fix commits eb07378 / 58a57cd / 185b2f9 (D24-D26); the Python "
+    "parser builds SymPy objects, the model builds syntax trees: compared through SymPy objects built without evaluation "
+    "and through values",
 ]
 
 SYMS = ["N", "M", "K", "L"]
